@@ -534,6 +534,16 @@ func vfC06CheckOne(
 ) {
 	m := vfC06Resolve(tab, host, qtype)
 
+	if m.tags[vfC06ShapeOtherExc] {
+		if _, open := vfkit.KnownOpen("C06", vfC06SigOtherExc); open {
+			// Listed open finding: the shape is left out so that the search
+			// goes on behind it (HARNESS_GUIDE rule 10).
+			vfC06.Excluded(vfC06SigOtherExc)
+
+			return
+		}
+	}
+
 	gots := make([]vfC06Got, len(filters))
 	for i, d := range filters {
 		gots[i] = vfC06Lookup(t, d, orders[i], host, qtype)
@@ -848,5 +858,59 @@ func TestVFC06DocExamples(t *testing.T) {
 			filters[i] = d
 		}
 		vfC06CheckOne(t, c.tab, filters, orders, c.host, c.qtype, true)
+	}
+}
+
+// TestVFC06RegressWildcardOtherTypeException freezes the finding
+// "wildcard-other-type-exception-order": the documented "A record with AAAA
+// exception" pair written for a wildcard key answers A questions only when the
+// address entry is listed before the exception.
+func TestVFC06RegressWildcardOtherTypeException(t *testing.T) {
+	vfkit.Begin(t)
+
+	type tc struct {
+		tab   []vfC06Entry
+		host  string
+		qtype uint16
+		want  vfC06Outcome
+	}
+	cases := []tc{
+		{[]vfC06Entry{{"*.example.com", "AAAA"}, {"*.example.com", "1.2.3.4"}}, "www.example.com", 1,
+			vfC06Outcome{IPs: []string{"1.2.3.4"}}},
+		{[]vfC06Entry{{"*.example.com", "1.2.3.4"}, {"*.example.com", "AAAA"}}, "www.example.com", 1,
+			vfC06Outcome{IPs: []string{"1.2.3.4"}}},
+		{[]vfC06Entry{{"*.example.com", "A"}, {"*.example.com", "::1"}}, "www.example.com", 28,
+			vfC06Outcome{IPs: []string{"::1"}}},
+		{[]vfC06Entry{{"*.example.com", "AAAA"}, {"*.example.com", "A"}}, "www.example.com", 1,
+			vfC06Outcome{Pass: true}},
+		{[]vfC06Entry{{"sub.example.org", "www.example.com"}, {"*.example.com", "AAAA"}, {"*.example.com", "1.2.3.4"}},
+			"sub.example.org", 1, vfC06Outcome{Canon: "www.example.com", IPs: []string{"1.2.3.4"}}},
+	}
+
+	_, open := vfkit.KnownOpen("C06", vfC06SigOtherExc)
+	for _, c := range cases {
+		m := vfC06Resolve(c.tab, c.host, c.qtype)
+		if !m.tags[vfC06ShapeOtherExc] {
+			t.Fatalf("VERIF-INCONCLUSIVE the model does not recognise the shape in %+v", c.tab)
+		}
+
+		d, cleanup := vfC06Build(t, c.tab, 0)
+		got := vfC06Lookup(t, d, c.tab, c.host, c.qtype)
+		cleanup()
+		vfC06.Eval()
+		vfC06.Class("regress")
+		if c.want.accepts(got) {
+			continue
+		}
+
+		what := fmt.Sprintf("%s: CheckHost(%q, %d) = %s, want %s with table %+v (the entries of a wildcard are cut "+
+			"to the first one, internal/filtering/rewrites.go findRewrites)", vfC06SigOtherExc, c.host, c.qtype, got,
+			c.want, c.tab)
+		if open {
+			vfC06.KnownLine(what)
+
+			return
+		}
+		t.Fatalf("%s", what)
 	}
 }
